@@ -86,6 +86,11 @@ PollInsert(c) ==
            /\ ev' = [e |-> "poll", c |-> c, t |-> now, res |-> "ok", val |-> gid[c], rq |-> c, ns |-> 0, nd |-> 1] @@ Lis(c2))
      ELSE UNCHANGED <<val, at, ord, freq, cnt>> /\ ev' = [e |-> "poll", c |-> c, t |-> now, res |-> "err", kind |-> "inner1", val |-> gid[c], ns |-> 0, nd |-> 1]    \* errors are never cached
   /\ UNCHANGED <<cfg, now, key, hitVal, gout, gid, ngate>>
+\* a panic of the inner call is the request's own (in-situ runs): nothing is cached
+PollPanic(c) ==
+  /\ st[c] = "running" /\ gout[c] = "panic" /\ st' = [st EXCEPT ![c] = "done"]
+  /\ ev' = [e |-> "poll", c |-> c, t |-> now, res |-> "panic", ns |-> 0, nd |-> 1]
+  /\ UNCHANGED <<cfg, now, key, hitVal, gout, gid, ngate, val, at, ord, freq, cnt>>
 PollStutter(c) ==
   /\ st[c] = "running" /\ gout[c] = "pending"
   /\ ev' = [e |-> "poll", c |-> c, t |-> now, res |-> "pending", ns |-> 0, nd |-> 0]
@@ -98,7 +103,7 @@ Advance(d) ==
   /\ d > 0 /\ \A c \in Callers : st[c] # "hit" /\ ~(st[c] = "running" /\ gout[c] \notin {"none", "pending"})
   /\ now' = now + d /\ ev' = [e |-> "advance", d |-> d, t |-> now + d]
   /\ UNCHANGED <<cfg, st, key, hitVal, gout, gid, ngate, val, at, ord, freq, cnt>>
-PollAny(c) == PollHit(c) \/ PollInsert(c) \/ PollStutter(c)
+PollAny(c) == PollHit(c) \/ PollInsert(c) \/ PollStutter(c) \/ PollPanic(c)
 Next ==
   \/ \E c \in Callers : (\E k \in Keys : Create(c, k)) \/ PollHit(c) \/ PollInsert(c)
   \/ \E c \in Callers, o \in Outs : Complete(c, o)
